@@ -49,6 +49,20 @@ REG_VALUES = {
     'SumGrader': [{'tolerance': '1%'}],
 }
 
+CMP_CLASSES = ['FormulaGrader', 'NumericalGrader', 'MatrixGrader']
+DEFAULT_COMPARERS = {
+    'FormulaGrader': [{'__cmp__': {'cls': 'LinearComparer', 'cfg': {}}},
+                      {'__cmp__': {'name': 'default.fcmp', 'kind': 'equal_tagged'}},
+                      {'__cmp__': {'name': 'default.fcmp2', 'kind': 'equal_tagged'}},
+                      {'__cmp__': {'builtin': 'equality_comparer'}}],
+    'NumericalGrader': [{'__cmp__': {'name': 'default.ncmp', 'kind': 'equal_tagged'}},
+                        {'__cmp__': {'name': 'default.ncmp2', 'kind': 'equal_tagged'}},
+                        {'__cmp__': {'builtin': 'equality_comparer'}}],
+    'MatrixGrader': [{'__cmp__': {'cls': 'MatrixEntryComparer', 'cfg': {'entry_partial_credit': 0.5}}},
+                     {'__cmp__': {'name': 'default.mcmp', 'kind': 'equal_tagged'}},
+                     {'__cmp__': {'builtin': 'equality_comparer'}}],
+}
+
 CREDITS = [
     {'__credit__': {'cls': 'LinearCredit', 'cfg': {}}},
     {'__credit__': {'cls': 'LinearCredit', 'cfg': {'decrease_credit_after': 2, 'minimum_credit': 0.1,
@@ -174,8 +188,12 @@ class TenantWorld(object):
                 # swarm: each fault kind is on in about two thirds of fault-injecting runs
                 rates[f] = p if rng.random() < 0.67 else 0.0
         # swarm themes: some runs concentrate on one corner of the tenant space
-        theme = rng.choices(['mixed', 'matrix', 'lists', 'inferring'], [0.6, 0.15, 0.12, 0.13])[0] \
+        theme = rng.choices(['mixed', 'matrix', 'lists', 'inferring', 'comparers'], [0.55, 0.15, 0.12, 0.1, 0.08])[0] \
             if prof.get('themes', True) else 'mixed'
+        if theme == 'comparers' and rates.get('cmp', 0) > 0 and 'numerical' in kinds:
+            # class-wide default comparers changed and reset while math graders are built and infer
+            enabled, weights = ['formula', 'numerical', 'matrix'], [2, 2, 2]
+            rates['cmp'] = 0.3
         if theme == 'matrix' and 'matrix' in kinds:
             enabled, weights = ['matrix', 'formula'], [3, 1]
             if not fault_free:
@@ -212,7 +230,7 @@ class TenantWorld(object):
                 tp = fn(rng, gid, shared=list(shared.values()) or None)
             elif kind == 'matrix':
                 tp = fn(rng, gid, theme=(theme == 'matrix'))
-            elif theme == 'inferring' and kind in ('string', 'formula', 'numerical', 'simitem', 'interval'):
+            elif theme in ('inferring', 'comparers') and kind in ('string', 'formula', 'numerical', 'simitem', 'interval'):
                 tp = fn(rng, gid, configured=False)
             else:
                 tp = fn(rng, gid)
@@ -253,6 +271,14 @@ class TenantWorld(object):
                 else:
                     events.append({'op': 'register', 'cls': cname,
                                    'values': P.pick(rng, REG_VALUES[cname])})
+                continue
+            if rng.random() < rates.get('cmp', 0):
+                cname = P.pick(rng, CMP_CLASSES)
+                if rng.random() < 0.3:
+                    events.append({'op': 'reset_comparer', 'cls': cname})
+                else:
+                    events.append({'op': 'set_comparer', 'cls': cname,
+                                   'spec': copy.deepcopy(P.pick(rng, DEFAULT_COMPARERS[cname]))})
                 continue
             r = rng.random()
             if r < rates.get('F9', 0):
@@ -488,6 +514,8 @@ class TenantWorld(object):
         run.built_reg = job['built_reg']
         run.dict_reg = job['dict_reg']
         run.reg = job['reg_now']
+        if job.get('prime_reg') is not None:
+            run.last_good_reg[job['gid']] = job['prime_reg']
         run.apply_reg(run.reg)
         ev = job['ev']
         inp = decode_input(ev['input'])
@@ -516,6 +544,7 @@ class Run(object):
         self.build_fail = {}
         self.built_reg = {}
         self.reg = {c: None for c in REG_CLASSES}
+        self.reg['__cmp__'] = {c: None for c in CMP_CLASSES}     # class-wide default comparers
         self.last_good = {}
         self.dg = {}
         self.violations = []
@@ -530,6 +559,7 @@ class Run(object):
         self.dgn = {}
         self.last_call = {}
         self.dict_reg = {}
+        self.last_good_reg = {}
         self.debug0 = {}
         self.dg2 = {}
         self.r3_jobs = []
@@ -542,6 +572,26 @@ class Run(object):
                                 'sig': sig or ('%s|%s' % (check, cls))})
 
     # -- registered defaults (reference model + application through the public API) ----
+    # The replica is the harness's own activity and must be invisible to the world: the actual
+    # class-wide settings are saved before the model state is established for a replica and put
+    # back afterwards by plain assignment (re-establishing the *model* state instead would
+    # quietly repair any deviation of the real process from the model -- exactly what R1 is
+    # there to detect).
+    def snapshot_actual(self):
+        snap = {'dv': {}, 'cmp': {}}
+        for cname in REG_CLASSES:
+            snap['dv'][cname] = cls_by_name(cname).default_values
+        for cname in CMP_CLASSES:
+            snap['cmp'][cname] = cls_by_name(cname).__dict__.get('default_comparer')
+        return snap
+
+    def restore_actual(self, snap):
+        for cname, val in snap['dv'].items():
+            cls_by_name(cname).default_values = val
+        for cname, val in snap['cmp'].items():
+            if val is not None:
+                setattr(cls_by_name(cname), 'default_comparer', val)
+
     def apply_reg(self, state):
         b = Builder(seams.Env('reg'))
         for cname in REG_CLASSES:
@@ -549,6 +599,12 @@ class Run(object):
             cls.clear_registered_defaults()
             for d in (state.get(cname) or []):
                 cls.register_defaults(b.decode(copy.deepcopy(d)))
+        for cname, spec in (state.get('__cmp__') or {c: None for c in CMP_CLASSES}).items():
+            cls = cls_by_name(cname)
+            if spec is None:
+                cls.reset_default_comparer()
+            else:
+                cls.set_default_comparer(b.decode(copy.deepcopy(spec)))
 
     # -- building ----------------------------------------------------------------------
     def resolve_ref(self, sid, builder):
@@ -609,9 +665,14 @@ class Run(object):
         tp = self.tenants[gid]
         bp = bp or tp['bp']
         # shared subgraders first (each under its own construction-time registration state)
+        snap = self.snapshot_actual()
         try:
             for sid in self.refs_of(bp):
-                b2.registry[sid] = b2.resolve_ref(sid, b2)
+                o_s, obj = outcome2(b2.resolve_ref, sid, b2)
+                if obj is None:
+                    # the shared subgrader cannot be rebuilt: the tenant's construction fails likewise
+                    return env2, b2, None, o_s
+                b2.registry[sid] = obj
             did = bp.get('dict_id')
             if did is not None and did in self.dict_reg:
                 # nested objects of a shared config dictionary were constructed when the dictionary
@@ -624,7 +685,7 @@ class Run(object):
             self.apply_reg(self.built_reg.get(gid, self.reg))
             o, g2 = outcome2(b2.build, bp)
         finally:
-            self.apply_reg(self.reg)
+            self.restore_actual(snap)
         return env2, b2, g2, o
 
     def refs_of(self, data, out=None):
@@ -729,10 +790,19 @@ class Run(object):
         if g2 is None:
             return ob, {}, b2
         if prime is not None:
-            env2.begin({'faults': []})
-            seams.seed_lib(0)
-            outcome(g2, prime, tp['pal']['right'][0])
-            env2.end()
+            # the remembered answers were inferred under the class-wide settings in force when
+            # that expect value was delivered (default comparers, registered defaults)
+            prime_reg = self.last_good_reg.get(gid)
+            snap = self.snapshot_actual()
+            if prime_reg is not None:
+                self.apply_reg(prime_reg)
+            try:
+                env2.begin({'faults': []})
+                seams.seed_lib(0)
+                outcome(g2, prime, tp['pal']['right'][0])
+                env2.end()
+            finally:
+                self.restore_actual(snap)
             self.bump(self.probes, 'replica primed with last good expect')
         o_r, _, x_r = self.deliver(g2, env2, ev, expect, inp, kw, measure=measure)
         return o_r, x_r, b2
@@ -804,6 +874,7 @@ class Run(object):
             refs = self.refs_of(tp['bp'])
             self.r3_jobs.append({
                 'i': i, 'gid': gid, 'ev': ev, 'prime': prime, 'o': o, 'reg_now': copy.deepcopy(self.reg),
+                'prime_reg': copy.deepcopy(self.last_good_reg.get(gid)),
                 'built_reg': {k: v for k, v in self.built_reg.items() if k == gid or k in refs},
                 'dict_reg': dict(self.dict_reg)})
         # reference state machine: last successfully supplied expect
@@ -812,6 +883,7 @@ class Run(object):
                 if self.last_good.get(gid) is not None and self.last_good[gid] != expect:
                     self.bump(self.probes, 'expect changed')
                 self.last_good[gid] = expect
+                self.last_good_reg[gid] = copy.deepcopy(self.reg)
             elif ev.get('ecls') == 'invalid':
                 self.bump(self.probes, 'invalid expect delivered')
                 if self.last_good.get(gid) is not None:
@@ -930,6 +1002,22 @@ class Run(object):
             self.reg[ev['cls']] = None
             self.sig.append(['clear', ev['cls']])
             self.log.append([i, 'clear'])
+            self.after_event(i)
+        elif op == 'set_comparer':
+            b = Builder(seams.Env('reg'))
+            cls_by_name(ev['cls']).set_default_comparer(b.decode(copy.deepcopy(ev['spec'])))
+            self.reg['__cmp__'] = dict(self.reg['__cmp__'])
+            self.reg['__cmp__'][ev['cls']] = ev['spec']
+            self.bump(self.probes, 'default comparer changed')
+            self.sig.append(['set_comparer', ev['cls']])
+            self.log.append([i, 'set_comparer'])
+            self.after_event(i)
+        elif op == 'reset_comparer':
+            cls_by_name(ev['cls']).reset_default_comparer()
+            self.reg['__cmp__'] = dict(self.reg['__cmp__'])
+            self.reg['__cmp__'][ev['cls']] = None
+            self.sig.append(['reset_comparer', ev['cls']])
+            self.log.append([i, 'reset_comparer'])
             self.after_event(i)
         elif op == 'eval':
             self.do_eval(i, ev)
@@ -1167,7 +1255,7 @@ class Run(object):
         # registered defaults may carry attempt credit too: strip it from the replica's world
         stripped = copy.deepcopy(self.built_reg.get(gid, self.reg))
         for cname, lst in stripped.items():
-            if lst:
+            if lst and cname != '__cmp__':
                 stripped[cname] = [{k: v for k, v in d.items() if not k.startswith('attempt_based_credit')}
                                    for d in lst]
         keep = self.built_reg.get(gid)
@@ -1183,10 +1271,17 @@ class Run(object):
         if g2 is None:
             return
         if prime is not None:
-            env2.begin({'faults': []})
-            seams.seed_lib(0)
-            outcome(g2, prime, tp['pal']['right'][0])
-            env2.end()
+            prime_reg = self.last_good_reg.get(gid)
+            snap = self.snapshot_actual()
+            if prime_reg is not None:
+                self.apply_reg(prime_reg)
+            try:
+                env2.begin({'faults': []})
+                seams.seed_lib(0)
+                outcome(g2, prime, tp['pal']['right'][0])
+                env2.end()
+            finally:
+                self.restore_actual(snap)
         kw = {'attempt': ev['attempt']} if 'attempt' in ev else {}
         o0, raw0, _ = self.deliver(g2, env2, ev, expect, inp, kw)
 
@@ -1352,6 +1447,8 @@ class Run(object):
         # then the process must be as good as new
         for cname in REG_CLASSES:
             cls_by_name(cname).clear_registered_defaults()
+        for cname in CMP_CLASSES:
+            cls_by_name(cname).reset_default_comparer()
         if 'I-author' in self.judges:
             bad = self.builder.author_violations()
             if bad:
